@@ -235,7 +235,8 @@ pub fn gen_plan(rng: &mut Rng, est_len: u64) -> Plan {
     Plan {
         seed: rng.next(),
         strategy: gen_strategy(rng, est_len),
-        knobs: Knobs { select_burn: rng.below(8) as u32, ..Default::default() },
+        // SIGINT or SIGTERM: both are requests to stop
+        knobs: Knobs { select_burn: rng.below(8) as u32, sigterm: rng.chance(40), ..Default::default() },
         ..Default::default()
     }
 }
@@ -243,6 +244,10 @@ pub fn gen_plan(rng: &mut Rng, est_len: u64) -> Plan {
 /// How a failing script ends: mostly 1 or 2, sometimes the codes shells use for "killed by
 /// SIGINT / SIGTERM" (130, 143) although nobody interrupted anything, 126/127, 255.
 pub fn fail_exit(rng: &mut Rng) -> String {
+    if rng.chance(10) {
+        // not the last command of the script: zinoma relies on `sh -e` to notice
+        return format!("midfail={}", rng.range(1, 3));
+    }
     let code = match rng.weighted(&[40, 25, 10, 10, 5, 5, 5]) {
         0 => 1,
         1 => 2,
@@ -356,7 +361,15 @@ pub fn gen_io(rng: &mut Rng, o: &IoOpts) -> Scenario {
         for _ in 0..ndeps {
             let c = rng.pick(&cands).clone();
             if !chosen.contains(&c) {
-                chosen.push(c);
+                chosen.push(c.clone());
+            }
+            // the same bare name in another project as a second dependency of the same target
+            if rng.chance(25) {
+                if let Some(twin) = cands.iter().find(|x| x.1 == c.1 && x.0 != c.0) {
+                    if !chosen.contains(twin) {
+                        chosen.push(twin.clone());
+                    }
+                }
             }
         }
         for c in chosen {
@@ -433,7 +446,7 @@ pub fn gen_io(rng: &mut Rng, o: &IoOpts) -> Scenario {
                         0 => None,
                         1 => Some(vec!["c".to_string(), ".h".to_string()]),
                         2 => Some(vec![".c".to_string(), "".to_string()]),
-                        _ => Some(vec![]),
+                        _ => Some(if rng.chance(50) { vec![] } else { vec!["".to_string()] }),
                     };
                     if rng.chance(20) {
                         t.input.push(Res::Paths { paths: vec![d.clone()], extensions: Some(vec!["c".to_string()]) });
@@ -449,6 +462,18 @@ pub fn gen_io(rng: &mut Rng, o: &IoOpts) -> Scenario {
                 }
                 _ => {}
             }
+            if rng.chance(15) {
+                // one resource listing sibling paths of which one is a textual prefix of the
+                // other (`gen/t0` and `gen/t0-extra`, `gen/t0.lst` and `gen/t0.lst.bak`)
+                let a = format!("gen/{}", name);
+                files.push(FileSpec { path: format!("{}/{}/one.txt", pdir, a), kind: FileKind::File(format!("{} {} one v0\n", pdir, name)) });
+                files.push(FileSpec { path: format!("{}/{}-extra/two.txt", pdir, a), kind: FileKind::File(format!("{} {} two v0\n", pdir, name)) });
+                files.push(FileSpec { path: format!("{}/{}.lst", pdir, a), kind: FileKind::File(format!("{} {} list v0\n", pdir, name)) });
+                files.push(FileSpec { path: format!("{}/{}.lst.bak", pdir, a), kind: FileKind::File(format!("{} {} list backup v0\n", pdir, name)) });
+                let mut paths = vec![a.clone(), format!("{}-extra", a), format!("{}.lst", a), format!("{}.lst.bak", a)];
+                rng.shuffle(&mut paths);
+                t.input.push(Res::Paths { paths, extensions: None });
+            }
             if !t.input.is_empty() && rng.chance(18) {
                 // a second, separate `paths` entry with the same (absent) filter as the first
                 let extra = format!("src2/{}.txt", name);
@@ -458,7 +483,13 @@ pub fn gen_io(rng: &mut Rng, o: &IoOpts) -> Scenario {
             if rng.chance(o.cmd_pct) {
                 // the same command text in every project directory, different values per directory
                 let key = if rng.chance(60) { "ver".to_string() } else { format!("k{}", name) };
-                vars.insert(format!("{}__{}", pdir.replace('/', "+"), key), format!("{} {} 1\n", pdir, key));
+                let initial = match rng.weighted(&[12, 4, 84]) {
+                    0 => "blob \\xff end\n".to_string(),
+                    // more than a pipe buffer holds
+                    1 => format!("!big:{}:{} {} 1\n", rng.range(66_000, 200_000), pdir, key),
+                    _ => format!("{} {} 1\n", pdir, key),
+                };
+                vars.insert(format!("{}__{}", pdir.replace('/', "+"), key), initial);
                 t.input.push(Res::Cmd { key });
             }
         }
@@ -466,7 +497,9 @@ pub fn gen_io(rng: &mut Rng, o: &IoOpts) -> Scenario {
             match rng.weighted(&[45, 22, 10, 13, 10]) {
                 4 => {
                     // several producers share one output directory, told apart by extension
-                    let ext = format!("o{}", projects[pi].targets.len());
+                    // told apart by extension; half of them a single letter written without its dot
+                    let k = projects[pi].targets.len();
+                    let ext = if rng.chance(50) { ["o", "a", "x", "s", "d", "m", "k", "z"][k % 8].to_string() } else { format!("o{}", k) };
                     t.writes.push(format!("dist/{}.{}", name, ext));
                     t.output.push(Res::Paths { paths: vec!["dist".to_string()], extensions: Some(vec![ext]) });
                 }
@@ -480,7 +513,13 @@ pub fn gen_io(rng: &mut Rng, o: &IoOpts) -> Scenario {
                     t.writes.push(format!("{}/x.o", d));
                     t.writes.push(format!("{}/sub/y.o", d));
                     t.writes.push(format!("{}/log.txt", d));
-                    let ext = if rng.chance(70) { Some(vec!["o".to_string()]) } else { None };
+                    // `[]` and `['']` both mean "no filter"
+                    let ext = match rng.weighted(&[62, 22, 8, 8]) {
+                        0 => Some(vec!["o".to_string()]),
+                        1 => None,
+                        2 => Some(vec![]),
+                        _ => Some(vec!["".to_string()]),
+                    };
                     t.output.push(Res::Paths { paths: vec![d], extensions: ext });
                 }
                 2 => {
